@@ -340,6 +340,14 @@ inductive Token where
   | junk (n : Nat)
 deriving Repr, DecidableEq, Inhabited
 
+/-- retry.py `encode_address`: `ipaddress.ip_address(addr[0]).packed + bytes([addr[1] >> 8, addr[1] & 0xFF])`;
+    `host` is the packed IP address (4 or 16 bytes); `bytes([x])` raises ValueError for `x > 255`.
+    The abstract addresses (`Nat`) of the server model stand for these encodings: `validate_token`
+    compares `encode_address` of the datagram's source with the sealed one. -/
+def encodeAddress (host : Bytes) (port : Nat) : Outcome Bytes :=
+  if port / 256 > 255 then .error (.py .value)
+  else .ok (host ++ [UInt8.ofNat (port / 256), UInt8.ofNat (port % 256)])
+
 /-- `QuicRetryTokenHandler.validate_token` for the handler holding `key` -/
 def validate (key : Nat) (addr : Nat) : Token → Option (CID × CID)
   | .sealed k a o r => if k = key ∧ a = addr then some (o, r) else none
